@@ -355,8 +355,8 @@ def split_top(lst):
 
 # ------------------------------------------------------------------ generation
 KEYS = ['a', 'b', 'utt2', 'c', 'k10', 'k2', 'ab', 'ba', 'd', 'e_1', 'f', 'zy9', 'g', 'AB', 'h', 'utt10']
-USER_EXC = ['EFilter', '(EUser 0)', '(EUser 1)', '(EUser 2)', 'EValue', 'EIndex', 'EKey', '(EUserBase 0)', 'ERuntime']
-CATCH_SETS = [('EFilter',), ('(EUser 0)',), ('EFilter', '(EUser 2)'), ('EException',), ('ELookup',), ('EValue', 'EKey')]
+USER_EXC = ['EFilter', '(EUser 0)', '(EUser 1)', '(EUser 2)', 'EValue', 'EIndex', 'EKey', '(EUserBase 0)', 'ERuntime', 'EType', 'EAttr', 'EAssert', 'ENotImpl', 'EZeroDiv']
+CATCH_SETS = [('EFilter',), ('(EUser 0)',), ('EFilter', '(EUser 2)'), ('EException',), ('ELookup',), ('EValue', 'EKey'), ('EType',), ('ERuntime', 'EAttr')]
 
 
 class Gen:
